@@ -30,6 +30,7 @@ func init() {
 // ---- R26 ----
 
 func ruleR26(c *Ctx) {
+	defer r26chained(c)
 	p := c.P
 	// (a) map fields written by index assignment in a method, vs composite literals of the struct
 	type mapField struct {
@@ -390,6 +391,59 @@ func ruleR26(c *Ctx) {
 			c.Check(guarded, f, firstUse, "method call on reflect.TypeOf(interface value)",
 				"reflect.TypeOf(nil) is nil, so a method call on its result needs a dominating nil test of the value or of the type (else a nil value with a typed declaration panics)",
 				fmt.Sprintf("dominating nil test: %v", guarded))
+			return true
+		})
+	}
+}
+
+// (d) of R26: the chained form reflect.TypeOf(v).M() on a value of type any (user data: nil is JSON null)
+func r26chained(c *Ctx) {
+	p := c.P
+	for _, f := range p.Funcs {
+		if f.Body == nil || !isTargetPkg(p, f.Pkg.PkgPath) {
+			continue
+		}
+		in := info(f)
+		inspectNoLit(f.Body, func(m ast.Node) bool {
+			mc, ok := m.(*ast.CallExpr)
+			if !ok {
+				return true
+			}
+			sel, ok := unparen(mc.Fun).(*ast.SelectorExpr)
+			if !ok {
+				return true
+			}
+			call, ok := unparen(sel.X).(*ast.CallExpr)
+			if !ok || !isPkgFunc(callee(in, call), "reflect", "TypeOf") || len(call.Args) != 1 {
+				return true
+			}
+			it, isIface := in.TypeOf(call.Args[0]).Underlying().(*types.Interface)
+			if !isIface || it.NumMethods() != 0 {
+				return true
+			}
+			if sel.Sel.Name == "Elem" {
+				// reflect.TypeOf(token).Elem(): the type-token idiom (the argument is a typed nil pointer that names an
+				// interface, not a value of the data layer)
+				return true
+			}
+			argObj := objOf(in, call.Args[0])
+			guarded := false
+			for _, pc := range polarConds(p, mc) {
+				be, ok := unparen(pc.cond).(*ast.BinaryExpr)
+				if !ok {
+					continue
+				}
+				for _, pair := range [][2]ast.Expr{{be.X, be.Y}, {be.Y, be.X}} {
+					if tv, ok := in.Types[pair[1]]; ok && tv.IsNil() && argObj != nil && objOf(in, pair[0]) == argObj {
+						if (be.Op == token.NEQ && pc.positive) || (be.Op == token.EQL && !pc.positive) {
+							guarded = true
+						}
+					}
+				}
+			}
+			c.Check(guarded, f, mc, "method call on reflect.TypeOf(value of type any)",
+				"reflect.TypeOf(nil) is nil, so a method call on its result needs a nil test of the value (a nil variable, a JSON null, panics the engine otherwise)",
+				fmt.Sprintf("controlled by a nil test of the value: %v", guarded))
 			return true
 		})
 	}
